@@ -604,6 +604,61 @@ def run(ctx):
                           {'op': 'getbalance partly cached', 'A_alone_before': alone_before, 'A_and_B': both, 'B_from_provider': bal_b,
                            'A_alone_after': alone_after, 'B_alone_after': b_alone})
 
+    # ---- a PARTIAL unspent-output query (after_txid given) on an address that is in step with the chain: the answer is a part of the
+    # address's outputs and is not its balance - what getbalance / the cached address record say afterwards is what they said before ----
+    for rep_i in range(2 if not T else 5):
+        k_a = Key(9500 + rep_i)
+        addr_a = k_a.address(encoding='bech32', script_type='p2wpkh')
+        n_tx = rng.choice([2, 3])
+        vals = [1000 * (2 ** j) + rep_i for j in range(n_tx)]
+        raws_p = []
+        for j in range(n_tx):
+            kj = Key(9600 + 10 * rep_i + j)
+            tj = Transaction(network='bitcoin', witness_type='segwit')
+            tj.add_input(bytes([0x50 + rep_i, j + 1]) * 16, j, keys=[kj], script_type='sig_pubkey', value=90000, witness_type='segwit')
+            tj.add_output(vals[j], address=addr_a)
+            tj.sign([kj])
+            raws_p.append(tj.raw_hex())
+
+        def txs_p(_i, raws_p=raws_p):
+            out = []
+            for n_, rawj in enumerate(raws_p):
+                tt = Transaction.parse_hex(rawj)
+                tt.block_height, tt.confirmations, tt.status = 700000 + n_, 100000 - n_, 'confirmed'
+                tt.date = datetime(2021, 1, 1, tzinfo=timezone.utc)
+                for inp in tt.inputs:
+                    inp.value = 90000
+                tt.update_totals()
+                out.append(tt)
+            return out
+        txids_p = [Transaction.parse_hex(r_).txid for r_ in raws_p]
+        after_pos = rng.randrange(0, n_tx - 1)
+        later = [{'address': addr_a, 'txid': txids_p[n_], 'confirmations': 100000 - n_, 'output_n': 0, 'input_n': 0, 'block_height': 700000 + n_,
+                  'fee': None, 'size': 0, 'value': vals[n_], 'script': '', 'date': None} for n_ in range(after_pos + 1, n_tx)]
+        srv = new_service(2)
+        total = sum(vals)
+        for i in range(2):
+            script[i] = {'blockcount': ('ok', 800000), 'gettransactions': ('ok', txs_p),
+                         'getbalance': ('okfn', lambda addresslist, total=total, addr_a=addr_a: total if addr_a in addresslist else 0),
+                         'getutxos': ('ok', [dict(u) for u in later])}
+        ctx.evals += 1
+        ctx.count('getutxos-after_txid-then-getbalance')
+        try:
+            srv.gettransactions(addr_a)
+            before = srv.getbalance(addr_a)
+            part = srv.getutxos(addr_a, after_txid=txids_p[after_pos])
+            after = srv.getbalance(addr_a)
+            info_after = srv.getcacheaddressinfo(addr_a)
+        except ServiceError:
+            continue
+        except Exception as e:
+            ctx.violation('a partial getutxos on a synchronised address raised', {'op': 'getutxos after_txid then getbalance', 'error': repr(e)[:120]})
+            continue
+        if before != total or after != total or (info_after.get('balance') not in (None, total)):
+            ctx.violation('after a partial unspent-output query (after_txid) the service answers another balance than every provider gives',
+                          {'op': 'getutxos after_txid then getbalance', 'every_provider_says': total, 'before': before, 'after': after,
+                           'partial_answer_sum': sum(u['value'] for u in part), 'cached_record_balance': info_after.get('balance')})
+
     # ---- a failed query must not poison later ones: all providers down (error limit reached), then healthy again ---------------
     for qname, (call, answer, who) in queries.items():
         for maxe in (1, 2, 4):
